@@ -1130,7 +1130,9 @@ pub fn take_record_batch(
         .iter()
         .map(|c| take(c, indices, None))
         .collect::<Result<Vec<_>, _>>()?;
-    RecordBatch::try_new(record_batch.schema(), columns)
+    // carry the row count explicitly so that batches without columns keep their rows
+    let options = RecordBatchOptions::new().with_row_count(Some(indices.len()));
+    RecordBatch::try_new_with_options(record_batch.schema(), columns, &options)
 }
 
 #[cfg(test)]
